@@ -47,7 +47,9 @@ def intake(wt: pathlib.Path, suffix: str):
         d = scratch()
         try:
             env = {"PYTHONPATH": str(d)}
-            rc, o = sh([PY, str(demo)], d, env, 300)
+            local_demo = d / "demo_under_test.py"       # run the copy: the script's own directory leads sys.path
+            shutil.copy(demo, local_demo)
+            rc, o = sh([PY, str(local_demo)], d, env, 300)
             log["demo_on_pristine"] = rc
             if rc != 0:
                 out.append((name, "REJECT demo fails on pristine tree", o[-300:]))
@@ -59,13 +61,15 @@ def intake(wt: pathlib.Path, suffix: str):
             if rc != 0:
                 out.append((name, "REJECT patch does not apply", o[-300:]))
                 continue
+            local_demo.rename(d / "demo_under_test.txt")   # keep it out of pytest's --doctest-modules collection
             rc, o = sh([PY, "-m", "pytest", "-q", "-p", "no:cacheprovider", "-x"], d, env, 900)
+            (d / "demo_under_test.txt").rename(local_demo)
             tail = o.strip().splitlines()[-1] if o.strip() else ""
             log["tests"] = tail
             if rc != 0 or "304 passed" not in tail:
                 out.append((name, "REJECT test suite does not pass with the change", tail))
                 continue
-            rc, o = sh([PY, str(demo)], d, env, 300)
+            rc, o = sh([PY, str(local_demo)], d, env, 300)
             log["demo_with_patch"] = rc
             if rc == 0:
                 out.append((name, "REJECT demo still passes with the change", o[-300:]))
